@@ -127,6 +127,28 @@ LuvBits(xyz, luv) ==
       fy == FxDivInt(FxAdd(luv[1], FxInt(16)), 116)
   IN Min3i(LabF(xyz[2], fy), AgreeBits(FxMul(luv[2], d), ru, su), AgreeBits(FxMul(luv[3], d), rv, sv))
 
+(* the same two definitions relative to any white point w = <<Xn, 1, Zn>> (D50 of ASTM E308: 0.96422, 0.82521; the DCI
+   white of SMPTE RP 431-2, chromaticity (0.314, 0.351): Xn = 314/351, Zn = 335/351) *)
+WhiteD50 == <<FxRat(96422, 100000), FxOne, FxRat(82521, 100000)>>
+WhiteDci == <<FxRat(314, 351), FxOne, FxRat(335, 351)>>
+LabBitsW(w, xyz, lab) ==
+  LET fy == FxDivInt(FxAdd(lab[1], FxInt(16)), 116)
+      fx == FxAdd(fy, FxDivInt(lab[2], 500))
+      fz == FxSub(fy, FxDivInt(lab[3], 200))
+  IN Min3i(LabF(FxDiv(xyz[1], w[1]), fx), LabF(xyz[2], fy), LabF(FxDiv(xyz[3], w[3]), fz))
+LuvBitsW(w, xyz, luv) ==
+  LET d == FxAdd(xyz[1], FxAdd(FxMulInt(xyz[2], 15), FxMulInt(xyz[3], 3)))
+      dn == FxAdd(w[1], FxAdd(FxInt(15), FxMulInt(w[3], 3)))
+      und == FxMul(d, FxDiv(FxMulInt(w[1], 4), dn))
+      vnd == FxMul(d, FxDiv(FxInt(9), dn))
+      l13 == FxMulInt(luv[1], 13)
+      ru == FxMul(l13, FxSub(FxMulInt(xyz[1], 4), und))
+      rv == FxMul(l13, FxSub(FxMulInt(xyz[2], 9), vnd))
+      su == AtLeast(FxMax(FxAbs(FxMul(l13, und)), FxAbs(FxMul(luv[2], d))), 30)
+      sv == AtLeast(FxMax(FxAbs(FxMul(l13, vnd)), FxAbs(FxMul(luv[3], d))), 30)
+      fy == FxDivInt(FxAdd(luv[1], FxInt(16)), 116)
+  IN Min3i(LabF(xyz[2], fy), AgreeBits(FxMul(luv[2], d), ru, su), AgreeBits(FxMul(luv[3], d), rv, sv))
+
 (* CIE xyY: x = X/(X+Y+Z), y = Y/(X+Y+Z), luma = Y *)
 YxyBits(xyz, yxy) ==
   LET s == FxAdd(xyz[1], FxAdd(xyz[2], xyz[3]))
